@@ -4,6 +4,8 @@ cd "$(dirname "$0")" || exit 2
 export CARGO_NET_OFFLINE=true
 mkdir -p evidence replays
 (cd harness && cargo build --release --offline) || exit 1
+# second configuration (see ./check): plain release profile, enr without rust-secp256k1
+(cd harness && cargo build --profile plain --no-default-features --target-dir target-plain --offline) || exit 1
 # thorough tier only; a failure here is not fatal (the fuzz stage then reports itself unavailable)
 (cd harness && cargo +nightly fuzz build --fuzz-dir "$(pwd)/../fuzz" >/dev/null 2>&1) || echo "note: fuzz targets not built (thorough tier will skip the libFuzzer stage)"
 exit 0
